@@ -94,6 +94,10 @@ def gen_method(rng, idx, cfg, opts):
                 has_body = True
                 p["type"] = "Item"
                 p["validator"] = rng.choice([None, "required"])
+                if opts.get("elem_pointers") and rng.random() < 0.5:
+                    # the body is one JSON array: []Item, []*Item, *[]Item, *[]*Item (requiredness is the PARAMETER's)
+                    p["slice"] = True
+                    p["elem_pointer"] = rng.random() < 0.6
             else:
                 if loc == "form":
                     has_form = True
@@ -123,6 +127,12 @@ def gen_method(rng, idx, cfg, opts):
                 if loc == "query" and rng.random() < 0.15:
                     p["slice"] = True
                     p["pointer"] = False
+                if opts.get("elem_pointers") and loc == "query":
+                    if not p["slice"] and rng.random() < 0.2:
+                        p["slice"] = True
+                        p["pointer"] = False
+                    if p["slice"] and rng.random() < 0.6:
+                        p["elem_pointer"] = True          # []*T: elements by address, the parameter itself by value
             if loc != "body" and params and rng.random() < 0.2:
                 other = rng.choice(params)
                 if not other["ctx"] and other["loc"] != loc and other["loc"] != "body":
@@ -249,7 +259,24 @@ def gen_project(rng, opts=None):
                     prm["type"] = local
                 if prm["type"] == "LocalPrio":
                     prm["type"] = "Local%sPrio" % pkg_ident(c["pkg"])
-    return {"config": cfg, "controllers": controllers, "types": ["Item"]}
+    if opts.get("custom_errors"):
+        # methods returning a CUSTOM error (a struct embedding `error`, declared in the controller's package: one of
+        # another package is refused, finding C10-error-type-of-another-package), by value or by address - one way per
+        # error type and project; the routes of one controller mix `error` and the custom types
+        style = {}
+        for c in controllers:
+            for m in c["methods"]:
+                if rng.random() < 0.55:
+                    m["errtype"] = custom_error_name(rng.choice(CUSTOM_ERRORS), c["pkg"])
+                    m["custom_error"] = style.setdefault(m["errtype"], rng.choice(["value", "pointer"]))
+                    if not m["errors"] and rng.random() < 0.6:
+                        m["errors"] = [{"code": rng.choice([400, 404, 409, 500]), "descr": rng.choice(["", "bad"])}]
+    out = {"config": cfg, "controllers": controllers, "types": ["Item"]}
+    if opts.get("broken_pkg") and rng.random() < 0.2:
+        # a file OUTSIDE the globs in the first controller package that does not type-check, with
+        # commonConfig.allowPackageLoadFailures on: gleece warns and goes on; every annotated route is still there
+        out["broken_pkg"] = True
+    return out
 
 
 def pkg_ident(pkg):
@@ -272,7 +299,8 @@ def sec_annotation(sc):
 def go_type(p):
     t = p["type"]
     if p.get("slice"):
-        t = "[]" + t
+        # "elem_pointer": a slice of POINTERS ([]*T), still a parameter passed by value
+        t = ("[]*" if p.get("elem_pointer") else "[]") + t
     if p.get("pointer"):
         t = "*" + t
     return t
@@ -287,6 +315,23 @@ def zero_value(ret):
 
 
 ENUMS = ["Color", "Shade", "Tone", "Level"]
+# custom error types (opt-in, method keys "errtype": <name> and "custom_error": "value" | "pointer"), declared in the
+# controller's package under a per-package name (custom_error_name), in a file the globs do not match
+CUSTOM_ERRORS = ["Failure", "Problem"]
+
+
+def custom_error_name(kind, pkg):
+    return "%s%s" % (kind, pkg_ident(pkg))
+
+
+CUSTOM_ERROR_DECL = """
+// A custom error: embeds error
+type %s struct {
+\terror
+\t// A machine readable code
+\tCode%s int `json:"code%s"`
+}
+"""
 ENUM_DECLS = """
 // Colours
 type Color string
@@ -372,15 +417,20 @@ def render_method(c, m, types_pkg, method_body=None):
         sig = ", ".join(parts)
     else:
         sig = ", ".join("%s %s" % (p["name"], qual(go_type(p))) for p in m["params"])
+    et, ez = "error", "nil"
+    if m.get("custom_error"):
+        # a custom error type of the types package, returned by value or by address
+        et = ("*" if m["custom_error"] == "pointer" else "") + m["errtype"]
+        ez = "nil" if m["custom_error"] == "pointer" else m["errtype"] + "{}"
     if m["ret"]:
-        rets = "(%s, error)" % qual(m["ret"])
+        rets = "(%s, %s)" % (qual(m["ret"]), et)
         z = zero_value(m["ret"])
         if z.endswith("{}"):
             z = qual(z)
-        body = "return %s, nil" % z
+        body = "return %s, %s" % (z, ez)
     else:
-        rets = "error"
-        body = "return nil"
+        rets = et
+        body = "return " + ez
     lines.append("func (c *%s) %s(%s) %s {" % (c["name"], m["name"], sig, rets))
     if method_body:
         lines += ["\t" + l for l in method_body(c, m, qual)]
@@ -408,6 +458,16 @@ def render_project(p, root, modpath, method_body=None, extra_imports=None):
                     "// @Method(GET)\n// @Route(/boo)\nfunc (c *GhostTypesCtl) Boo() (string, error) {\n\treturn \"\", nil\n}\n")
         if any(prm["type"] in ENUMS for c in p["controllers"] for m in c["methods"] for prm in m["params"]):
             f.write(ENUM_DECLS)
+            if p.get("dup_enum_values"):
+                # two constants of one enum share a value (legal Go)
+                f.write("\nconst ColorCrimson Color = \"red\"\n\nconst ToneMild, ToneBalmy Tone = \"warm\", \"warm\"\n")
+            if p.get("split_enums"):
+                # further constants of the same enums in ANOTHER file of the package
+                with open(os.path.join(root, "types", "enums_more.go"), "w") as g:
+                    g.write("package types\n\nconst (\n\tColorGreen Color = \"green\"\n\tColorAmber Color = \"amber\"\n)\n\n"
+                            "const ShadeMid Shade = \"mid\"\n\nconst (\n\tToneNeutral Tone = \"neutral\"\n\tLevelMid Level = 3\n)\n")
+                with open(os.path.join(root, "types", "a_enums_first.go"), "w") as g:
+                    g.write("package types\n\nconst ColorAzure Color = \"azure\"\n\nconst LevelZero Level = 0\n")
     for pkg in pkgs:
         d = os.path.join(root, pkg)
         os.makedirs(d, exist_ok=True)
@@ -443,7 +503,20 @@ def render_project(p, root, modpath, method_body=None, extra_imports=None):
             for m in c["methods"]:
                 mk = "%s_%d.go" % (stem, m["file"])
                 files.setdefault(mk, []).append(render_method(c, m, "types", method_body))
+            if p.get("half_annotated"):
+                # methods that are NOT endpoints: only one of @Route / @Method
+                files.setdefault(key, []).append(
+                    "// @Route(/half-annotated)\nfunc (c *%s) HalfRouteOnly() error {\n\treturn nil\n}\n\n"
+                    "// @Method(GET)\nfunc (c *%s) HalfMethodOnly() error {\n\treturn nil\n}" % (c["name"], c["name"]))
         local = "Local%sDto" % pkg_ident(pkg)
+        if p.get("local_same") and any("LocalSameDto" in (m["ret"] or "") for c in p["controllers"] if c["pkg"] == pkg
+                                        for m in c["methods"]):
+            # the SAME type name declared in several packages, with different fields (a known collision, F16):
+            # whatever gleece makes of it, it has to make the same thing of it on every run
+            with open(os.path.join(d, "same.go"), "w") as f:
+                f.write("package %s\n\n// Declared under the same name in another package too\ntype LocalSameDto struct {\n"
+                        "\tOwner%s string `json:\"owner%s\"`\n\tRank int `json:\"rank\"`\n}\n"
+                        % (os.path.basename(pkg), pkg_ident(pkg), pkg_ident(pkg).lower()))
         if any(local in (x.get("type") or "") for c in p["controllers"] if c["pkg"] == pkg for m in c["methods"]
                for x in m["params"]) or any(local in (m["ret"] or "") for c in p["controllers"] if c["pkg"] == pkg
                                             for m in c["methods"]):
@@ -458,12 +531,20 @@ def render_project(p, root, modpath, method_body=None, extra_imports=None):
                 f.write("package %s\n\n%s// A type declared next to the controllers, in a file the globs do not match\n"
                         "type %s struct {\n\tLabel string `json:\"label\"`\n\tRank int `json:\"rank\"`\n}\n%s"
                         % (os.path.basename(pkg), "import \"github.com/gopher-fleece/runtime\"\n\n" if ghost else "", local, ghost))
+        cerrs = sorted(set(m["errtype"] for c in p["controllers"] if c["pkg"] == pkg for m in c["methods"] if m.get("custom_error")))
+        if cerrs:
+            with open(os.path.join(d, "errors.go"), "w") as f:
+                f.write("package %s\n%s" % (os.path.basename(pkg), "".join(CUSTOM_ERROR_DECL % (en, en, en.lower()) for en in cerrs)))
         prio = "Local%sPrio" % pkg_ident(pkg)
         if files and any(prio == x.get("type") for c in p["controllers"] if c["pkg"] == pkg for m in c["methods"]
                          for x in m["params"]):
             first = sorted(k for k in files if k.endswith("_0.go"))[0]
             files[first].append("// A priority, declared next to the controllers\ntype %s string\n\nconst (\n\t%sHigh %s = \"high\"\n"
                                 "\t%sLow  %s = \"low\"\n)" % (prio, prio, prio, prio, prio))
+        if p.get("broken_pkg") and pkg == pkgs[0]:
+            with open(os.path.join(d, "broken.go"), "w") as f:
+                f.write("package %s\n\n// refers to generated code that is not there yet\nvar verifBuildInfo = verifUndefinedSymbol\n"
+                        % os.path.basename(pkg))
         for fn, chunks in files.items():
             src = "\n\n".join(chunks)
             imports = []
@@ -480,14 +561,27 @@ def render_project(p, root, modpath, method_body=None, extra_imports=None):
                 f.write("package %s\n\nimport (\n%s\n)\n\n%s\n" % (os.path.basename(pkg), "\n".join("\t" + i for i in imports), src))
 
 
+OAUTHY_FLOWS = {
+    "authorizationCode": {"authorizationUrl": "https://auth.example.com/authorize", "tokenUrl": "https://auth.example.com/token",
+                          "scopes": {"read": "read things", "write": "write things"}},
+    "clientCredentials": {"tokenUrl": "https://auth.example.com/token", "scopes": {"admin": "administer"}},
+}
+
+
 def render_config(p, root, modpath, openapi="3.0.0", engine=None, extra=None):
     cfg = p["config"]
     schemes = [{"description": "scheme " + n, "name": n, "fieldName": "x-" + n, "type": "apiKey", "in": "header"}
                for n in cfg["schemes"]]
+    for sc in schemes:
+        if sc["name"] == "oauthy":
+            # an OAuth2 scheme with two flows whose scope sets DIFFER (each flow documents its own scopes)
+            sc.pop("fieldName"), sc.pop("in")
+            sc.update({"type": "oauth2", "flows": OAUTHY_FLOWS})
     pkgs = sorted(set(c["pkg"] for c in p["controllers"]))
     conf = {
         # controller files are named <stem>_<k>.go; models.go (package-local types) is deliberately not matched
-        "commonConfig": {"controllerGlobs": ["./%s/*_*.go" % g for g in pkgs]},
+        "commonConfig": dict({"controllerGlobs": ["./%s/*_*.go" % g for g in pkgs]},
+                             **({"allowPackageLoadFailures": True} if p.get("broken_pkg") else {})),
         "routesConfig": {
             "engine": engine or cfg["engine"], "outputPath": "./dist/routes.go", "outputFilePerms": "0644",
             "packageName": "routes", "skipGenerateDateComment": True,
